@@ -42,6 +42,26 @@ def drive (body impl : String) : Verdict :=
          else [s!"[wrong-result] the task finished {own} but the join returned {get "res"}"])
       else if get "ran" != "1" then [s!"[early-timeout] the task never ran although both pools made a scheduling pass"] else []
     { modelOut := mo, spec := [("C02", bad.isEmpty, joinWith " ; " bad)], labels := ["steal", if get "stolen" == "1" then "stolen" else "not-stolen"] }
+  else if sched.startsWith "handle" then
+    -- the public JoinHandle on a real loop: either the task has long finished when the join starts (the first
+    -- look finds the result, however little patience the caller has), or it is still running (the join gives up,
+    -- a later join gets the result)
+    let n := (words sched).filterMap String.toNat?
+    let (busy, wait) := (n.getD 0 0, n.getD 1 0)
+    let finishedFirst := busy + 100 ≤ wait
+    let c1 := if finishedFirst then run c0 [.completer, .completer, .waiter, .waiter]
+              else run c0 [.waiter, .waiter, .waiter, .expire, .waiter, .waiter]
+    let c2 := run c1 [.completer, .completer]
+    let mo := match c1.wpc with
+      | .returned r => if finishedFirst then s!"res={showRes r} later=-" else s!"res={showRes r} later={showRes c2.res}"
+      | _ => "res=? later=?"
+    let bad : List String :=
+      if finishedFirst then
+        (if get "res" == own then [] else [s!"[finished-task-not-returned] the task had finished {own} long before the join ({sched}), the join returned {get "res"}"])
+      else
+        (if get "res" == "timeout" then [] else [s!"[wrong-result] the task was still running when the join gave up, yet it returned {get "res"}"]) ++
+        (if get "later" == own then [] else [s!"[result-lost] the later join should return {own}, got {get "later"}"])
+    { modelOut := mo, spec := [("C02", bad.isEmpty, joinWith " ; " bad)], labels := [if finishedFirst then "handle.finished-before-join" else "handle.running-at-join", s!"patience{n.getD 2 0}"] }
   else if late then
     -- the waiter runs alone up to its deadline, the completion comes afterwards
     let c1 := run c0 [.waiter, .waiter, .waiter, .expire, .waiter, .waiter]
